@@ -78,6 +78,13 @@ def check(tier):
             collect_logs("E2 space %s (exception build) under ASan/UBSan" % spx)
             results.append(res); states += res["summary"]["states"]; trans += res["summary"]["transitions"]
     samples.append({"oracle": "ASan+UBSan+LSan on E2 spaces", "spaces": [{"space": r["space"], "solution": r["solution"], **r["summary"]} for r in results]})
+    # (1b) exit-time use of the library from a hook registered before the first MASA call (ASan build: a use after free is reported)
+    r = subprocess.run([pairs, "--mode", "atexit"], stdout=subprocess.PIPE, stderr=subprocess.STDOUT, text=True, env=env)
+    states += 1; trans += 9
+    if r.returncode != 0:
+        rep.violation("exit-time hook registered before the first MASA call: the library is no longer usable from it (exit status %d): %s" % (r.returncode, digest(r.stdout) if r.stdout else ""),
+                      {"engine": "c19", "oracle": "asan/ubsan + state check", "history": ["atexit(hook)", "masa_init(x1,euler_1d)", "set_param(u_0,7.25)", "masa_init(x2,...)", "masa_init<ld>(y1,...)", "exit(0) -> hook: select/get_name/get_param/list"], "report_head": r.stdout[:1500]})
+        collect_logs("exit-time hook")
     # (2) history families: every ordered pair of catalogue solutions (thorough) / every solution with a partner (quick)
     pout = os.path.join(b.dir, "pairs.out")
     args = [pairs, "--mode", "fork", "--out", pout] + (["--single"] if tier == "quick" else [])
